@@ -8,25 +8,29 @@ package contract
 //@ import callflag github.com/nspcc-dev/neo-go/pkg/smartcontract/callflag
 //@ import vm github.com/nspcc-dev/neo-go/pkg/vm
 //@ import storage github.com/nspcc-dev/neo-go/pkg/core/storage
+//@ import manifest github.com/nspcc-dev/neo-go/pkg/smartcontract/manifest
 
 // Call-site obligations of the contract-call path: whatever the caller passes, a method
 // marked safe is entered without the write-states and allow-notify flags, and the flags
 // handed on are a subset of the requested ones.
 //@ func callInternal
-//@ requires ic != nil && ic.VM != nil && cs != nil && md != nil
+//@ requires ic != nil && ic.VM != nil && ic.VM.gasConsumed != nil && cs != nil && md != nil
 //@ opt frame off
-//@ opt opaque-callees CanCall
-//@ opt stable ic.VM, md.Safe, md.Name
+//@ opt stable ic.VM, ic.VM.gasConsumed, md.Safe, md.Name
 //@ call callExFromNative requires[safe] md.Safe ==> arg5 & (callflag.WriteStates | callflag.AllowNotify) == 0
 //@ call callExFromNative requires[shrink] arg5 & f == arg5
 //@ call callExFromNative requires[method] same(arg3, md.Name)
+// A non-safe method is entered from a deployed contract whose manifest is known only when one
+// of that manifest's permissions matches the callee (its hash, or one of its groups) and the method.
+//@ call callExFromNative requires[permitted] !md.Safe && ctx != nil && ctx.sc.NEF != nil && mfst != nil ==> manifest.permitted(mfst, cs.Hash, &cs.Manifest, md.Name)
+//@ call callExFromNative requires[callee] arg2 == cs
 
 //@ prop C04,C16
 //@ func callExFromNative
 //@ may-panic
-//@ requires ic != nil && ic.VM != nil && cs != nil
+//@ requires ic != nil && ic.VM != nil && ic.VM.gasConsumed != nil && cs != nil
 //@ opt frame off
-//@ opt stable ic.VM
+//@ opt stable ic.VM, ic.VM.gasConsumed
 //@ call LoadNEFMethod requires[shrink] arg5 & f == arg5
 // (C04) A callee that can write storage or notify, entered while the calling contract has an
 // open TRY, runs in a private layer of its own: a fresh empty layer over the caller's DAO,
